@@ -313,3 +313,67 @@ func genLayoutCase(seed int64, k int, files []*corpus.File) *Case {
 	}
 	return c
 }
+
+// gdefCaretDevices lists the absolute offsets of the Device / VariationIndex tables of
+// the format 3 caret values of GDEF's LigCaretList, with the glyph each belongs to.
+func gdefCaretDevices(b []byte, t tbl) (devs []int, glyphs []uint16) {
+	end := t.off + t.length
+	if t.length < 12 || end > len(b) {
+		return
+	}
+	lc := t.off + u16(b, t.off+8)
+	if lc == t.off || lc+4 > end {
+		return
+	}
+	cov := lc + u16(b, lc)
+	n := u16(b, lc+2)
+	for i := 0; i < n && i < 512 && lc+4+2*i+2 <= end; i++ {
+		lg := lc + u16(b, lc+4+2*i)
+		if lg+2 > end {
+			continue
+		}
+		// the glyph of coverage index i (format 1 only; else the first glyph of the coverage)
+		var gid uint16
+		if cov+4 <= end && u16(b, cov) == 1 && i < u16(b, cov+2) && cov+4+2*i+2 <= end {
+			gid = uint16(u16(b, cov+4+2*i))
+		} else if cov+6 <= end {
+			gid = uint16(u16(b, cov+4))
+		}
+		nc := u16(b, lg)
+		for j := 0; j < nc && j < 16 && lg+2+2*j+2 <= end; j++ {
+			cv := lg + u16(b, lg+2+2*j)
+			if cv+6 <= end && u16(b, cv) == 3 {
+				if d := cv + u16(b, cv+4); d+6 <= end {
+					devs = append(devs, d)
+					glyphs = append(glyphs, gid)
+				}
+			}
+		}
+	}
+	return
+}
+
+// genCaretDeviceCase rewrites the three header fields of such a table: hinting Device
+// tables (formats 1..3) with sizes starting at 0, reversed or huge ranges.
+func genCaretDeviceCase(seed int64, k int, files []*corpus.File) *Case {
+	buildTagIndex(files)
+	sites := tagIndex[0x47444546] // GDEF
+	if len(sites) == 0 {
+		return nil
+	}
+	for try := 0; try < len(sites); try++ {
+		site := sites[(k+try)%len(sites)]
+		devs, glyphs := gdefCaretDevices(site.file.Bytes(), site.t)
+		if len(devs) == 0 {
+			continue
+		}
+		r := gen.New(seed, "C09/caret-device", k)
+		i := r.Intn(len(devs))
+		hdr := [][3]uint16{{0, 0, 1}, {0, 0xFFFF, 1}, {0, 1, 2}, {0, 0, 3}, {5, 3, 1}, {0, 0x7FFF, 3}, {1, 0, 2}, {0xFFFF, 0xFFFF, 1}}[r.Intn(8)]
+		data := append(append(put16(hdr[0]), put16(hdr[1])...), put16(hdr[2])...)
+		return &Case{File: site.file.ID, Kind: "gdef-caret-device", Focus: []uint16{glyphs[i]},
+			Edits: []Edit{{Off: devs[i], Data: data}},
+			Note:  fmt.Sprintf("GDEF caret of glyph %d: device header startSize=%d endSize=%d deltaFormat=%d", glyphs[i], hdr[0], hdr[1], hdr[2])}
+	}
+	return nil
+}
